@@ -206,3 +206,17 @@ func MapOf(key, val *rapid.Generator[S], max int) *rapid.Generator[M] {
 		return m
 	})
 }
+
+// Spoil rewrites a tag map the harness has just handed to the library, as a
+// caller that re-uses one map in a loop would: every value is overwritten and a
+// key is added. The library copies tag maps on every derivation, so nothing it
+// does afterwards may depend on the caller's map.
+func Spoil(m map[string]string) {
+	if m == nil {
+		return
+	}
+	for k := range m {
+		m[k] = "spoiled-by-caller"
+	}
+	m["spoiled_by_caller"] = "1"
+}
